@@ -61,7 +61,9 @@ func genLZWCase(r *sim.Rng, tier string, interop bool, contract bool) *LZCase {
 			cfg.Size = int64(r.Range(1, 50))
 		}
 	}
-	c.W = WCase{Format: "lzma", LZ: &cfg, Payload: pl, Ops: genHistory(r, n, false, []int{int(cfg.Size), 65536}, false)}
+	// (a third of the histories go on after Close: a second Close - what a
+	// deferred Close after an explicit one amounts to -, further writes)
+	c.W = WCase{Format: "lzma", LZ: &cfg, Payload: pl, Ops: genHistory(r, n, false, []int{int(cfg.Size), 65536}, c.SizeMode != "deficit" && r.Chance(1, 3))}
 	c.W.RDict = sim.Pick(r, []int{4096, 4096, 8192, 1 << 16})
 	c.W.Sink.ByteWriter = r.Bool()
 	return c
@@ -110,6 +112,12 @@ func checkLZContract(c *LZCase, res *WResult) *sim.Violation {
 	for i, cr := range res.Calls {
 		if cr.Panic != nil {
 			return sim.Viol("panic", cr.Op.K+":"+panicSite(cr.Panic), "call %d %s panicked: %s [%s]", i, cr.Op.K, cr.Panic.Value, cr.Panic.Stack)
+		}
+		if res.CloseIdx >= 0 && i > res.CloseIdx {
+			// calls after the Close that finished the stream: what they return is
+			// not constrained for this writer; that they leave the finished stream
+			// alone is judged on the sink image below
+			continue
 		}
 		switch cr.Op.K {
 		case "w":
@@ -170,6 +178,12 @@ func runLZCase(c *LZCase, x *sim.Ctx, foreign bool) *sim.Violation {
 		return v
 	}
 	img := res.Sink.Image
+	if ci := res.CloseIdx; ci >= 0 && res.Calls[ci].Err == nil && res.Calls[ci].ImgAfter != len(img) {
+		// the stream was finished by that Close; nothing may be added behind it
+		// (a deferred second Close, a late Write): the file would no longer be a
+		// .lzma file
+		return sim.Viol("after-close-emits", "lzma", "the Close that finished the stream left %d bytes in the sink, the calls after it added %d more", res.Calls[ci].ImgAfter, len(img)-res.Calls[ci].ImgAfter)
+	}
 	if c.SizeMode == "deficit" {
 		// Close failed as it must; whatever reached the sink is not a stream
 		// (the header may still sit in the writer's buffer).
